@@ -52,14 +52,15 @@ Fixpoint drain (fuel : nat) (q : list dpkg) (errs : nat) : option nres * list dp
   end.
 
 (* NextPackageUntil with a callback (Some cb) or without (None); eeds = messages collected so far *)
-Fixpoint until (fuel : nat) (q : list dpkg) (errs : nat) (wait : bool) (cb : option (dpkg -> cbres)) (eeds : list tree)
+(* the callback may depend on how many packages it has been shown before (nc): it is an arbitrary stateful function *)
+Fixpoint until (fuel : nat) (q : list dpkg) (errs : nat) (wait : bool) (cb : option (nat -> dpkg -> cbres)) (nc : nat) (eeds : list tree)
   : ures * list dpkg * nat :=
   match fuel with
   | O => (UFail NBlocked, q, errs)
   | S f =>
     match next_package q errs wait with
     | (NPkg p, r, e) =>
-      if is_eed p then until f r e true cb (eeds ++ [snd p])
+      if is_eed p then until f r e true cb nc (eeds ++ [snd p])
       else match cb with
            | None =>
              if is_done_final p then (UNilEof, r, e)
@@ -68,17 +69,17 @@ Fixpoint until (fuel : nat) (q : list dpkg) (errs : nat) (wait : bool) (cb : opt
                   | (Some x, r', e') => (UFail x, r', e')
                   end
            | Some f_cb =>
-             match f_cb p with
+             match f_cb nc p with
              | CbEof => (UPkgEof p, r, e)
              | CbErr =>
                if is_done_final p then (UCbError eeds, r, e)
                else (* the rest of the response is consumed by NextPackageUntil(ctx, wait, nil); whatever that call
                        returns is ignored (messages met while draining are not added to the error) *)
-                    match until f r e true None [] with
+                    match until f r e true None O [] with
                     | (_, r', e') => (UCbError eeds, r', e')
                     end
              | CbStop => (UPkg p, r, e)
-             | CbContinue => until f r e true cb eeds
+             | CbContinue => until f r e true cb (S nc) eeds
              end
            end
     | (x, r, e) => (UFail x, r, e)
